@@ -200,7 +200,8 @@ class Report:
             'wall_s': round(wall, 2),
             'violations': len(viol),
         }
-        edir = os.path.join(paths.VERIF, 'evidence')
+        # seeded-change experiments set VERIF_EVIDENCE_DIR so that the committed evidence (unchanged tree) is not overwritten
+        edir = os.environ.get('VERIF_EVIDENCE_DIR') or os.path.join(paths.VERIF, 'evidence')
         os.makedirs(edir, exist_ok=True)
         with open(os.path.join(edir, f'{self.prop}.json'), 'w') as f:
             json.dump(ev, f, indent=1, default=str)
